@@ -171,6 +171,7 @@ func vspecAckType(s message.Type) bool {
 //@   ensures[C13:known] old(haskey(aq.emap, message.vspecPacketID(ifaceval(msg, *message.header).packetID))) && vspecAckType(old(message.Type(ifaceval(msg, *message.header).mtypeflags[0]>>4))) ==> aq.ring[old(aq.emap[message.vspecPacketID(ifaceval(msg, *message.header).packetID)])].State == old(message.Type(ifaceval(msg, *message.header).mtypeflags[0]>>4)) && fresh(arr(aq.ring[old(aq.emap[message.vspecPacketID(ifaceval(msg, *message.header).packetID)])].Ackbuf))
 //@   ensures[C13:bufs] preservedarrays(aq.ring[0].Msgbuf)
 //@   ensures[C02:keepid] old(message.vspecPacketID(ifaceval(msg, *message.header).packetID)) != 0 || !old(ifaceval(msg, *message.header).dirty) ==> message.vspecPacketID(ifaceval(msg, *message.header).packetID) == old(message.vspecPacketID(ifaceval(msg, *message.header).packetID))
+//@   ensures[C02,C12:unknown-is-ok] !old(haskey(aq.emap, message.vspecPacketID(ifaceval(msg, *message.header).packetID))) && vspecAckType(old(message.Type(ifaceval(msg, *message.header).mtypeflags[0]>>4))) ==> err == nil
 //@   modifies elems(aq.ring), aq.ping, ifaceval(msg, *message.header).remlen, ifaceval(msg, *message.header).dirty, ifaceval(msg, *message.header).packetID, message.gPacketID, heap("GF.clock"), heap("GF.mlockedAt")
 
 // Wait: registers a request (PUBLISH QoS>0, SUBSCRIBE, UNSUBSCRIBE by packet id; PINGREQ in the ping slot).
